@@ -1,23 +1,13 @@
 /-
-Proofs/TMTape.lean — the head-relative view of a `TMTape` and how `write_symbol` / `move`
-act on it (both tape ends, all directions).
+Proofs/TMTape.lean — how `write_symbol` / `move` act on the head-relative view of a `TMTape`
+(both tape ends, all directions).  The trusted definitions `Tape.view` and `shift` live in
+`Spec/TMTape.lean`.
 -/
-import AutomataVerif.Model.TMDefs
+import AutomataVerif.Spec.TMTape
 import Mathlib.Logic.Function.Basic
 
 namespace AV.TM
 variable {Γ : Type}
-
-/-- The tape a `TMTape` stands for: a two-way infinite tape, blank outside the stored cells,
-indexed relative to the head (`view t 0` is the scanned cell). -/
-def Tape.view (t : Tape Γ) : Int → Γ := fun i =>
-  if 0 ≤ (t.pos : Int) + i then t.cells.getD ((t.pos : Int) + i).toNat t.blank else t.blank
-
-/-- Moving the head: the head-relative content shifts the other way. -/
-def shift : Dir → (Int → Γ) → (Int → Γ)
-  | .L, f => fun i => f (i - 1)
-  | .R, f => fun i => f (i + 1)
-  | _, f => f
 
 namespace Tape
 
